@@ -132,7 +132,8 @@ def score_sets(draw, min_pos=0, min_neg=0, max_size=12, modes=ALL_MODES, mag=1e6
     if easy:
         ez = st.one_of(st.just(0), st.just(0), st.integers(1, 5), st.integers(6, max_easy))
         if huge_easy:  # counts beyond 32-bit range
-            ez = st.one_of(ez, ez, ez, st.sampled_from([2**31 - 6, 2**31, 3_000_000_000, 2**40]))
+            ez = st.one_of(ez, ez, ez, st.sampled_from([2**31 - 6, 2**31, 3_000_000_000, 2**40]
+                                                       + ([2**53 + 3, 2**55 + 5] if huge_easy == "beyond-float" else [])))
         ep, en = draw(ez), draw(ez)
     else:
         ep = en = 0
